@@ -431,7 +431,14 @@ Proof.
           destruct (Eo _ Iox) as [Eok _]. unfold elem_ok in Eok.
           destruct ox; try discriminate Eok. inversion Sox; subst; [discriminate|reflexivity]. }
         rewrite Shc. cbn [negb].
-        cbn [read_la]. unfold list_to_object. cbn [py_truthy negb py_iter]. rewrite HT, HA, HL.
+        assert (Shl : la_items (JList (l0 :: lrest)) = JList (l0 :: lrest)).
+        { unfold la_items.
+          replace (forallb is_jmap (l0 :: lrest)) with true; [reflexivity|]. symmetry.
+          apply forallb_forall. intros lx Ilx.
+          destruct (Forall2_in_r _ _ _ Fl lx Ilx) as [ox [Iox Sox]].
+          destruct (Eo _ Iox) as [Eok _]. unfold elem_ok in Eok.
+          destruct ox; try discriminate Eok. inversion Sox; subst; [discriminate|reflexivity]. }
+        cbn [read_la]. rewrite Shl. unfold list_to_object. cbn [py_truthy negb py_iter]. rewrite HT, HA, HL.
         pose proof (l2o_items_nodup _ _ _ _ HT eq_refl) as NDT.
         pose proof (l2o_items_entries _ _ _ _ HT) as Ent.
         assert (PK : forall k0 v0, In (k0, v0) T -> plain_key k0 = true).
@@ -850,14 +857,14 @@ Section DecKey.
     probe_la la k = LaVal lav -> lookup k ak = Some v ->
     key_match rec sk lk cfg ak la k tv = O_match ->
     exists T A L, list_to_object tv fields = Ret T /\ list_to_object v fields = Ret A /\
-                  list_to_object lav fields = Ret L /\ rec T A L false = O_match.
+                  list_to_object (la_items lav) fields = Ret L /\ rec T A L false = O_match.
   Proof.
     intros S C P Lk H. apply specified_key_inv in S. destruct S as [_ [S2 S3]].
     unfold key_match in H. rewrite S2, P, S3, Lk, C in H. cbn [read_la] in H.
     destruct (negb (shape_ok v)); [onomatch H|].
     destruct (list_to_object tv fields) as [T| |]; try onomatch H.
     destruct (list_to_object v fields) as [A| |]; try onomatch H.
-    destruct (list_to_object lav fields) as [L| |]; try onomatch H.
+    destruct (list_to_object (la_items lav) fields) as [L| |]; try onomatch H.
     exists T, A, L. auto.
   Qed.
 End DecKey.
@@ -1239,7 +1246,7 @@ Section Ext.
       + destruct (negb (shape_ok cv)); auto.
         destruct (list_to_object tv fields) as [T|e|] eqn:LT; auto.
         destruct (list_to_object cv fields) as [A|e|]; auto.
-        cbn [read_la]. destruct (list_to_object lav fields) as [L|e|]; auto.
+        cbn [read_la]. destruct (list_to_object (la_items lav) fields) as [L|e|]; auto.
         eapply E2; eauto.
       + cbn [read_la]. apply E1.
   Qed.
